@@ -11,8 +11,12 @@ SEPS = [" ", " ", " ", "  ", "\t", "\n", "\r\n", " \n  ", " ", "　", "\x0b", "
 WORDS = ["a", "b", "c", "foo", "bar", "x1", "héllo", "\\AND", "ANDx", "and", "or", "not", "xOR",
          "a\\:b", "foo*", "?x", "*", "te?t", "2024-01-01T12:30:45", "T12:30", "a+b", "a-b", "x/y",
          ",", "a\"b", "a'b", "a<b", "a>=b", "=b", "a=b", "\\(x\\)", "\\ y", "12", "1.5", "\\-z",
-         "日本", "x\\\\", "\\*", "a\\*b", "TOx", "to", "a.b", "Z", "34", "30:15", "45x", "T12", "10t20"]
-PHRASES = ['"a b"', '""', '"a\\"b"', '"x:y"', '"AND"', '"a (b) [c]"', '"é ü"', '" lead"', '"t\\\\"',
+         "日本", "x\\\\", "\\*", "a\\*b", "TOx", "to", "a.b", "Z", "34", "30:15", "45x", "T12", "10t20",
+         # not in NFC / NFKC normal form (a parser that normalises its input shifts every later position)
+         "cafe\u0301", "e\u0301x", "\u1100\u1161", "a\u030a", "\ufb01n", "\u2126", "x\u00b2",
+         # escaped blank at the end / start of the word
+         "foo\\ ", "\\ a\\ "]
+PHRASES = ['"cafe\u0301 e\u0301"', '"a b"', '""', '"a\\"b"', '"x:y"', '"AND"', '"a (b) [c]"', '"é ü"', '" lead"', '"t\\\\"',
            '"a\tb"', '"wild*"']
 PHRASES_NL = ['"a\nb"']
 PHRASES_CTRL = ['"a\x0bb"', '"x\u2028y"', '"a\rb"', '"p\x1cq"', '"m\x85n"', '"t\x0cu"']
@@ -25,7 +29,7 @@ NUMS_LONG = ["1234567890123456789012345678901", "0.12345678901234567890123456789
 NUMS_BAD = [".", "1.2.3", "..", "1..2"]
 INTS = ["", "", "1", "2", "03", "10", "0"]
 FIELDS = ["f", "title", "a.b", "author.name", "f1", "x_y", "été", "a\\:b", "f-g", "*", "a.b.c", "T12", "part12",
-          "t07", "xT30"]
+          "t07", "xT30", "nom\u0301"]
 
 
 class QueryGen:
@@ -204,8 +208,8 @@ def malformed(rng, qg):
 # ---------------------------------------------------------------------------------------------
 
 TREE_WORDS = ["a", "b", "c", "foo", "*", "fo*", "a b", "=b", "T12", "30", "TO", "a\"b", "x+y", "a-b", "1",
-              "AND", "é", "", "a\\ b"]
-TREE_PHRASES = ['"a b"', '""', '"x"', '"a\\"b"', '"c d e"']
+              "AND", "é", "", "a\\ b", "foo\\ ", "\\ x", "e\u0301"]
+TREE_PHRASES = ['"cafe\u0301 e\u0301"', '"a b"', '""', '"x"', '"a\\"b"', '"c d e"']
 TREE_REGEX = ["/a/", "//", "/b c/"]
 TREE_FIELDS = ["f", "g", "a.b", "bad name", "é", "", "f1", "a.b.c", "T12", "xT07"]
 
